@@ -74,6 +74,8 @@ def _streq(a, b):
     ub = [u for u in ub if not (isinstance(u, tuple) and u[0] == "label" and u[1] < 0)]
     la = [i for i, u in enumerate(ua) if isinstance(u, tuple) and u[0] == "label"]
     lb = [i for i, u in enumerate(ub) if isinstance(u, tuple) and u[0] == "label"]
+    ua = [u for u in ua]
+    ub = [u for u in ub]
     if la != lb or len(ua) != len(ub):
         # a (nonempty) label has unknown length >= 1; every other unit is one character
         if not la and not lb:
@@ -94,11 +96,16 @@ def _streq_units(ua, ub):
         elif isinstance(x, tuple) and isinstance(y, tuple):
             if x[0] != y[0]:
                 raise Unsupported("comparison of a label with an order digit")
+            if x[0] == "labelchar" and x[1] != y[1]:
+                raise Unsupported("comparison of the first characters of two different labels")
             if x[1] != y[1]:
                 return False
         else:
             t = x if isinstance(x, tuple) else y
             cz = y if isinstance(x, tuple) else x
+            # labels are alphanumeric and orders are digits: neither equals a punctuation character
+            if not cz.isalnum():
+                return False
             if t[0] == "order":
                 raise Unsupported("comparison of an order digit with a literal character")
             raise Unsupported("comparison of a label with a literal")
@@ -252,6 +259,26 @@ class Evaluator:
             raise _Continue()
         if isinstance(st, ast.Assert):
             return
+        if isinstance(st, ast.Try) and not getattr(st, "finalbody", None):
+            try:
+                self.block(st.body, env)
+            except Raised as r:
+                for h in st.handlers:
+                    names = set()
+                    if h.type is None:
+                        names = {r.exc_name}
+                    else:
+                        for t in (h.type.elts if isinstance(h.type, ast.Tuple) else [h.type]):
+                            names.add(t.id if isinstance(t, ast.Name) else getattr(t, "attr", "?"))
+                    if r.exc_name in names or names & {"Exception", "BaseException"}:
+                        if h.name:
+                            env[h.name] = r.exc_name
+                        self.block(h.body, env)
+                        return
+                raise
+            else:
+                self.block(st.orelse, env)
+            return
         raise Unsupported("statement %s at line %d" % (type(st).__name__, st.lineno))
 
     def assign(self, target, value, env):
@@ -370,6 +397,10 @@ class Evaluator:
         if isinstance(e, ast.ListComp) and len(e.generators) == 1 and not e.generators[0].is_async:
             g = e.generators[0]
             it = self.eval(g.iter, env)
+            if it is None or isinstance(it, (int, float, bool)):
+                raise Raised("TypeError")
+            if isinstance(it, str):
+                it = list(it)
             if not isinstance(it, (list, tuple)):
                 raise Unsupported("comprehension over non-list")
             out = []
@@ -449,6 +480,23 @@ class Evaluator:
                 if self.eq(kk, k):
                     return vv
             raise Raised("KeyError")
+        if isinstance(v, str):
+            # concrete text: python semantics
+            if isinstance(sl, ast.Slice):
+                if sl.step is not None:
+                    raise Unsupported("slice step")
+                lo = self.eval(sl.lower, env) if sl.lower is not None else None
+                hi = self.eval(sl.upper, env) if sl.upper is not None else None
+                if not all(x is None or (isinstance(x, int) and not isinstance(x, bool)) for x in (lo, hi)):
+                    raise Unsupported("non-constant slice bound")
+                return v[lo:hi]
+            i = self.eval(sl, env)
+            if not isinstance(i, int) or isinstance(i, bool):
+                raise Unsupported("non-constant index")
+            try:
+                return v[i]
+            except IndexError:
+                raise Raised("IndexError")
         if isinstance(v, (str, AStr)):
             s = self.as_astr(v)
             units = s.units()
@@ -484,6 +532,9 @@ class Evaluator:
             if not isinstance(i, int):
                 raise Unsupported("non-constant index")
             if i >= 0:
+                if lab and i == first_lab:
+                    # first character of a (nonempty) label: an alphanumeric character of unknown value
+                    return AStr([("labelchar", units[i][1])])
                 if i >= first_lab and lab:
                     raise Unsupported("index into / past a label of unknown length")
                 j = i
@@ -498,6 +549,8 @@ class Evaluator:
 
     def binop(self, op, a, b):
         if isinstance(op, ast.Add):
+            if isinstance(a, str) and isinstance(b, str):
+                return a + b
             if isinstance(a, (str, AStr)) and isinstance(b, (str, AStr)):
                 return AStr(self.as_astr(a).units() + self.as_astr(b).units())
             if isinstance(a, list) and isinstance(b, list):
@@ -542,6 +595,9 @@ class Evaluator:
                 if c is None:
                     raise Unsupported("%s on an abstract string" % f.attr)
                 return getattr(c, f.attr)()
+            if f.attr in ("strip", "lstrip", "rstrip", "upper", "lower", "replace", "removeprefix", "removesuffix") and isinstance(recv, str) and \
+                    all(isinstance(a, str) for a in args) and not e.keywords:
+                return getattr(recv, f.attr)(*args)
             if f.attr == "append" and isinstance(recv, list) and len(args) == 1:
                 recv.append(args[0])
                 return None
@@ -578,9 +634,20 @@ class Evaluator:
                 return "<formatted>"
             raise Unsupported("method call .%s at line %d" % (f.attr, e.lineno))
         if isinstance(f, ast.Name):
+            if f.id == "isinstance" and len(e.args) == 2:
+                tnode = e.args[1]
+                tnames = [t.id for t in (tnode.elts if isinstance(tnode, ast.Tuple) else [tnode]) if isinstance(t, ast.Name)]
+                py = {"str": (str, AStr), "list": (list,), "tuple": (tuple,), "int": (int,), "float": (float,), "dict": (dict,), "bool": (bool,), "set": (set,)}
+                if tnames and all(t in py for t in tnames) and len(tnames) == len(tnode.elts if isinstance(tnode, ast.Tuple) else [tnode]):
+                    v = self.eval(e.args[0], env)
+                    if isinstance(v, (str, AStr, list, tuple, int, float, dict, bool, set)) or v is None:
+                        return any(isinstance(v, py[t]) and not (t == "int" and isinstance(v, bool)) for t in tnames)
+                raise Unsupported("isinstance with an abstract value or unknown type")
             args = [self.eval(a, env) for a in e.args]
             if f.id == "len" and len(args) == 1 and isinstance(args[0], (list, tuple, dict)):
                 return len(args[0])
+            if f.id == "int" and len(args) == 1 and isinstance(args[0], AStr) and args[0].concrete() is not None:
+                args = [args[0].concrete()]
             if f.id == "int" and len(args) == 1 and isinstance(args[0], (int, str)) and not isinstance(args[0], bool):
                 try:
                     return int(args[0])
@@ -592,6 +659,16 @@ class Evaluator:
                 return args[0]
             if f.id == "bool" and len(args) == 1:
                 return self.truth(args[0])
+            if f.id == "enumerate" and 1 <= len(args) <= 2 and isinstance(args[0], (list, tuple, str)) and not e.keywords:
+                start = args[1] if len(args) == 2 else 0
+                if isinstance(start, int):
+                    return [(i + start, x) for i, x in enumerate(args[0])]
+            if f.id == "iter" and len(args) == 1:
+                if isinstance(args[0], (list, tuple, dict, str, AStr, set, frozenset)):
+                    return list(args[0]) if not isinstance(args[0], AStr) else args[0]
+                if args[0] is None or isinstance(args[0], (int, float, bool)):
+                    raise Raised("TypeError")
+                raise Unsupported("iter() of an abstract value")
         raise Unsupported("call %s at line %d" % (ast.unparse(f), e.lineno))
 
 
